@@ -66,6 +66,9 @@ def known_key(texts, o):
     return None
 
 
+_CONFIRMED_NONTERM = [0]
+
+
 def huge_repeat(o):
     """A run that exhausts the logical budget inside '.repeat' expansion is an explicitly requested enormous amount of work
     (e.g. '.repeat 4294967296 { }'): finite, therefore not 'looping forever'; not judged, counted."""
@@ -300,7 +303,7 @@ def run_one(case, cnt):
     o = asm.assemble(files, budget=budget, wall=300, handler=make_handler(case["handler"], rec, case, shown))
     o.events = rec.events
     texts = [t for _, t in files]
-    if o.cls == "nonterm" and not huge_repeat(o) and known_key(texts, o) is None:
+    if o.cls == "nonterm" and not huge_repeat(o) and known_key(texts, o) is None and _CONFIRMED_NONTERM[0] < 2:
         # many lazily sized statements before the base is known cost O(n^3) steps: slow, but finite.  Decide with a 40x budget.
         rec = asm.Recorder()
         shown = []
@@ -308,6 +311,10 @@ def run_one(case, cnt):
         o2.events = rec.events
         if o2.cls != "nonterm":
             cnt["slow_but_terminating"] = cnt.get("slow_but_terminating", 0) + 1
+        else:
+            # (after two inputs of this shard that do not end even with the 40x budget, further ones are reported at the plain budget:
+            # a tree that hangs on many inputs must not use up the shard's wall clock before anything is reported)
+            _CONFIRMED_NONTERM[0] += 1
         o = o2
     info = {"cls": o.cls, "steps": o.steps, "ids": sorted(set(e["id"] for e in o.events)),
             "reached_compiler": o.compiler is not None, "site": None}
